@@ -57,11 +57,13 @@ def r15_1(ctx):
                                                                                      skip_labels=('x',))[0] for r in rets)
             ctx.ob('R15.1', 'RawArray(size):returned-only-zeroed', ok, ra, None, 'return behind the memset')
             tdefs = [v for (dn, t, v) in q.assigns(ra, 'type_') if q.has_guard(ra, dn, 'isinstance(%s, int)' % P, True)]
-            ok = [ast.unparse(v).replace(' ', '') for v in tdefs] == ['type_*%s' % P]
+            ok = ([ast.unparse(v).replace(' ', '') for v in tdefs] == ['type_*%s' % P] and ast.unparse(c.args[0]) == 'type_') or \
+                (not tdefs and ast.unparse(c.args[0]).replace(' ', '') == 'type_*%s' % P)
             ctx.ob('R15.1', 'RawArray(size):element-count-is-size', ok, ra, None, 'type_ = type_ * size')
         else:
             tdefs = [v for (dn, t, v) in q.assigns(ra, 'type_') if q.has_guard(ra, dn, 'isinstance(%s, int)' % P, False)]
-            ok = [ast.unparse(v).replace(' ', '') for v in tdefs] == ['type_*len(%s)' % P]
+            ok = ([ast.unparse(v).replace(' ', '') for v in tdefs] == ['type_*len(%s)' % P] and ast.unparse(c.args[0]) == 'type_') or \
+                (not tdefs and ast.unparse(c.args[0]).replace(' ', '') == 'type_*len(%s)' % P)
             ctx.ob('R15.1', 'RawArray(init):element-count-is-len(initialiser)', ok, ra, None, 'type_ = type_ * len(initialiser)')
             inits = [(x, cc) for (x, cc) in q.calls(ra, var + '.__init__')]
             ok = bool(inits) and all(len(cc.args) == 1 and isinstance(cc.args[0], ast.Starred) and
